@@ -12,6 +12,8 @@ def run(P, R, L):
     K.own5(P, R, L)
     R.clause("COV-1", "checksum coverage on the writer side: bytes fed to the CRC depend on every header byte that steers parsing")
     K.cov1(P, R, L)
+    R.clause("MAN-1", "skipping damaged fragments is for the WAL only: the manifest is read in a mode in which a damaged fragment is an error")
+    K.man1_manifest_reader_strict(P, R, L)
     R.clause("TS-1", "a fragment dropped for a bad CRC does not leave the reassembly buffer assembling")
     K.ts1(P, R, L)
     R.clause("ERR-1", "parse errors of Batch, VersionChangeManifest and FileMetadata (and every other Result) are not swallowed")
